@@ -12,8 +12,9 @@ Round-2 families (harness/props/C07_hard.py, see /verif/HARDENING.md): label poo
 label DESCRIPTORS; `materialize` builds fresh Python objects, containers and aliasing per call as `case["dress"]`
 says; the model sees nat ids assigned by Python's own ==/hash), container types, magnitudes, option sweeps, call
 sequences on shared objects, by-construction large instances (never sent to vm_compute) and event-directed cases.  Round 3: W work-volume instances per internal loop (counts by construction, maxima in
-coverage.work_max_per_loop), A2 in-place edits between calls, X float entries / names / limits (the model gets the integer
-that decides the same comparisons, see eff_limit; NaN / fractional limits are judged on the limit-independent clauses).
+coverage.work_max_per_loop), A2 in-place edits between calls, X finite float entries / names / limits (the model gets the integer
+that decides the same comparisons, see eff_limit; fractional limits are judged on the limit-independent clauses).  Non-finite /
+overflowing floats and duplicate column names are OBSERVATION-ONLY (observation_only(), /root/seed3/POLICY_X.md).
 """
 import copy
 import itertools
@@ -216,6 +217,33 @@ def materialize(case):
     return M, cols, sec
 
 
+def _extreme(v):
+    return isinstance(v, float) and (v != v or v in (math.inf, -math.inf) or abs(v) >= 1e300)
+
+
+def observation_only(case):
+    """Inputs outside the property (/root/seed3/POLICY_X.md): non-finite or overflowing float data / names / limits, and two
+    columns carrying the same (equal) name.  Such calls are run and counted, never judged, never sent to the model."""
+    def walk(d):
+        if isinstance(d, (list, tuple)):
+            return any(walk(x) for x in d)
+        if isinstance(d, dict):
+            return any(walk(x) for x in d.values())
+        return _extreme(d)
+
+    if any(_extreme(v) for r in case["matrix"] for v in r):
+        return "non-finite or overflowing float entry"
+    if _extreme(case["max_solutions"]) or _extreme(case["max_iter"]):
+        return "non-finite or overflowing float limit"
+    if walk(case["columns"] or []) or walk(case["secondary"] or []):
+        return "non-finite or overflowing float name"
+    if case["columns"]:
+        cols, _ = labels(case)
+        if len(set(cols)) != len(cols):
+            return "two columns with the same name"
+    return None
+
+
 def options(case):
     kw = {"find_all": case["find_all"], "max_solutions": case["max_solutions"]}
     if case["max_iter"] is not None:
@@ -400,9 +428,6 @@ def oracle(case, out, mutated, nondet):
         # malformed call: only the documented behaviour "IndexError or some result" is accepted; no property claim
         return None if out["kind"] in ("done", "IndexError") else ("crash", f"malformed call: {out}")
     if out["kind"] != "done":
-        lims = [x for x in (case["max_solutions"], case["max_iter"]) if isinstance(x, float)]
-        if out["kind"] == "exc" and any(x != x or x in (math.inf, -math.inf) for x in lims):
-            return None  # a non-finite limit may be rejected by raising (the model correspondence still reports the change)
         return ("crash", f"implementation did not return: {out}")
     # all exact covers: subset enumeration up to 12 rows, beyond that an independent set-based branching reference
     # (None when even that is too large: then only the per-selection clauses are judged)
@@ -672,6 +697,12 @@ def run(ctx: Ctx):
     ev_hist = {}
 
     def process(case):
+        obs = observation_only(case)
+        if obs:  # outside the property: run, count, do not judge, do not send to the model
+            o = canon_result(guarded(call_impl, case, timeout=5))
+            ctx.evaluations += 1
+            ctx.count("observation_only", f"{obs} -> {o.get('status', o.get('type', o['kind']))}")
+            return
         out, mutated, nondet = run_impl(case)
         ctx.evaluations += 1
         fam = case.get("family", "base")
@@ -744,7 +775,7 @@ def run(ctx: Ctx):
             ctx.violation("solve_exact_cover: " + bad, {"kind": "case", "case": c, "sequence": True})
 
     # ---- A2: edit the caller's objects in place between calls (cells, rows, names incl. duplicates, secondary)
-    a2_pool = [c for c in seq_pool if len(c["matrix"][0]) >= 1 and all(len(r) == len(c["matrix"][0]) for r in c["matrix"])]
+    a2_pool = [c for c in seq_pool if len(c["matrix"][0]) >= 1 and not (c["columns"] and len(c["columns"]) != len(c["matrix"][0])) and all(len(r) == len(c["matrix"][0]) for r in c["matrix"])]
     for c in rng.sample(a2_pool, min(len(a2_pool), ctx.budget(40, 400))):
         ctx.evaluations += 7
         ctx.count("family", "A2")
@@ -796,6 +827,9 @@ def run(ctx: Ctx):
                      "the harness only (not expressible in the model; determinism of the model is definitional)")
     ctx.notes.append("malformed calls (wrong number of column names, truthy entry beyond the named columns) are only "
                      "compared with the model (IndexError / phantom column); the property makes no claim about them")
+    ctx.notes.append("observation-only (outside the property, POLICY_X): NaN / +-inf / |v| >= 1e300 float entries, names or limits, and "
+                     "two columns with the same (equal) name: the calls are run and counted in histogram observation_only, "
+                     "never judged and never compared with the model")
     ctx.notes.append("column names of any type are mapped to nat ids for the model by Python's own ==/hash (harness), so the model "
                      "never sees the label objects; label-type independence is checked by the relabelling oracle; instances of "
                      "more than 12 rows are judged by a set-based branching reference, the large structured ones (S) by "
